@@ -34,6 +34,7 @@ func Run(k *report.Check) {
 	p := params{depth: k.Pick(4, 5), nsub: k.Pick(3, 4), nns: k.Pick(2, 3), keyGroups: 4,
 		cfgs: []dkvh.Options{{Mem: 60, Table: 80, L0: 2, Smallest: 4500, Ampl: 50}, {Mem: 60, Table: 40, L0: 1, Smallest: 4500, Ampl: 50},
 			{Mem: 60, Table: 80, L0: 1, Smallest: 9000, Ampl: 200}}} // minor compactions above a non-empty base level
+	k.Parts(2)
 	od := k.Pick(4, 5)
 	k.ExploreSched(fmt.Sprintf("sched/operator/d=%d", od), mc.Config{Bound: 0, Deadline: k.Within(0.4), RecycleAfter: 1500}, oparams{depth: od, thorough: k.Thorough()}, operatorBody)
 	k.ExploreProc(fmt.Sprintf("store/d=%d", p.depth), mc.Config{}, p, storeBody)
